@@ -339,6 +339,7 @@ class SymX:
             root = fut["body"]
         outs = sub.ev(root, st0)
         paths = [Path(bs, "fall", bv) for bs, bv in outs] + sub.done
+        paths = sub._expand_returned_map(paths)      # a helper that returns `x.map(f)` / `x.and_then(f)` has those two exits
         res = []
         ret_ty = cb.get("ret", "")
         for p in paths:
@@ -417,6 +418,44 @@ class SymX:
             states = nxt
         return adaptors, base_it, states, skipped, okd
 
+    def _be_fold(self, name, vals, clo, params, e):
+        """`buf.iter().fold(0uN, |acc, &b| (acc << 8) | uN::from(b))` over a byte array of exactly N/8 bytes is `uN::from_be_bytes(buf)`."""
+        if name != "fold" or vals[1] != ("lit", 0):
+            return None
+        ty = str(e.get("ty") or "")
+        width = {"u16": 2, "u32": 4, "u64": 8}.get(ty)
+        base = unwrap(e["recv"])
+        while base.get("k") in ("mcall", "call") and (base.get("name") in ("iter", "into_iter") or str(base.get("callee") or "").split("::")[-1] in ("iter", "into_iter")):
+            base = unwrap(base["recv"] if base.get("k") == "mcall" else base["args"][0])
+        while base.get("k") in ("ref", "un"):
+            base = unwrap(base["e"])
+        bty = str(base.get("ty") or "").replace("&", "").replace("mut ", "").strip()
+        if width is None or bty != "[u8; %d]" % width:
+            return None
+        st0 = St(env=dict(clo[2]) if len(clo) > 2 else {})
+        sub = SymX(self.body, self.macros, self.inline, self.depth + 1)
+        acc, el = ("var", "$acc"), ("var", "$byte")
+        sub.bind(params[0], acc, st0)
+        sub.bind(params[1], el, st0)
+        outs = sub.ev(clo[1]["body"], st0)
+        if len(outs) != 1 or sub.done:
+            return None
+        r = outs[0][1]
+
+        def widen(x):
+            while isinstance(x, tuple) and ((x[0] == "cast" and str(x[1]) == ty) or (is_call_t(x) and x[1] in ("std::convert::From::from", "std::convert::Into::into") and len(x[2]) == 1)):
+                x = x[2] if x[0] == "cast" else x[2][0]
+            return x
+        if isinstance(r, tuple) and r[0] == "bin" and r[1] in ("BitOr", "Add", "BitXor"):
+            a, b = r[2], r[3]
+            for hi, lo in ((a, b), (b, a)):
+                if isinstance(hi, tuple) and hi[0] == "bin" and ((hi[1] == "Shl" and hi[3] == ("lit", 8)) or (hi[1] == "Mul" and hi[3] == ("lit", 256))) and hi[2] == acc and widen(lo) == el:
+                    it = vals[0]
+                    while is_call_t(it) and it[1].split("::")[-1] in ("iter", "into_iter") and it[2]:
+                        it = it[2][0]
+                    return ("call", "core::num::<impl %s>::from_be_bytes" % ty, [it], e)
+        return None
+
     def fold_as_loop(self, target, vals, s, e):
         """`it.fold(init, |acc, x| body)` is `let mut acc = init; for x in it { acc = body }; acc`; `it.for_each(|x| body)` is `for x in it { body }`:
         the same <for> trace entry (nested path set, phi for the carried value) as the loop statement."""
@@ -430,6 +469,11 @@ class SymX:
         if (name == "fold" and (len(vals) != 3 or len(params) != 2)) or (name == "for_each" and (len(vals) != 2 or len(params) != 1)):
             return None
         itv = vals[0]
+        be = self._be_fold(name, vals, clo, params, e)
+        if be is not None:
+            s2 = s.fork()
+            s2.log(be)
+            return [(s2, be)]
         lit = itv
         while is_call_t(lit) and lit[1].split("::")[-1] in ("into_iter", "iter") and lit[2]:
             lit = lit[2][0]
@@ -602,17 +646,35 @@ class SymX:
             v = p.ret
             w = v[1] if (isinstance(v, tuple) and v[0] == "await") else v
             tested = any(isinstance(c[1], tuple) and (c[1] is w or (c[1][0] == "call" and c[1][2] and c[1][2][0] is w)) for c in p.conds if len(c) > 1)
-            if p.kind in ("fall", "return") and not tested and is_call_t(w) and w[1] in ("std::result::Result::<T, E>::map", "std::option::Option::<T>::map") and len(w[2]) == 2:
+            if p.kind in ("fall", "return") and not tested and is_call_t(w) and w[1] in ("std::result::Result::<T, E>::map", "std::option::Option::<T>::map",
+                                                                                          "std::result::Result::<T, E>::and_then", "std::option::Option::<T>::and_then") and len(w[2]) == 2:
                 x, f = w[2]
                 node = w[3] if len(w) > 3 else None
                 s = St(dict(p.env), list(p.conds), [t for t in p.trace if t is not w and not (is_call_t(t) and len(t) > 3 and t[3] is node and t[1] == w[1])])
-                s_ok = s.cond(("if", ("call", "<is_err>", [x], node), False))
-                applied = self.apply_fn(f, [("ok?", x)], s_ok, node)
+                # the receiver may itself be `y.map(g)`: `y.map(g).and_then(f)` is `f(g(y?))`
+                inner_ok = [(s.cond(("if", ("call", "<is_err>", [x], node), False)), ("ok?", x))]
+                err_of = x
+                if is_call_t(x) and x[1] in ("std::result::Result::<T, E>::map", "std::option::Option::<T>::map") and len(x[2]) == 2:
+                    y, g = x[2]
+                    s_y = St(dict(s.env), list(s.conds), [t for t in s.trace if t is not x and not (is_call_t(t) and len(t) > 3 and len(x) > 3 and t[3] is x[3] and t[1] == x[1])])
+                    got = self.apply_fn(g, [("ok?", y)], s_y.cond(("if", ("call", "<is_err>", [y], node), False)), node)
+                    if got is not None:
+                        inner_ok, err_of, s = got, y, s_y
+                applied = []
+                for s_ok, arg in inner_ok:
+                    r_ = self.apply_fn(f, [arg], s_ok, node)
+                    if r_ is None:
+                        applied = None
+                        break
+                    applied.extend(r_)
                 if applied is not None:
                     good = "std::prelude::v1::Ok" if w[1].startswith("std::result") else "std::prelude::v1::Some"
-                    for s2, val in applied:
-                        out.append(Path(s2, p.kind, ("ctor", good, [val])))
-                    out.append(Path(s.cond(("if", ("call", "<is_err>", [x], node), True)), "try", ("err?", x)))
+                    is_map = w[1].endswith("::map")
+                    nxt = [Path(s2, p.kind, ("ctor", good, [val]) if is_map else val) for s2, val in applied]
+                    if not is_map:
+                        nxt = self._expand_returned_map(nxt)     # the closure's own result may be a `z.map(h)` again
+                    out.extend(nxt)
+                    out.append(Path(s.cond(("if", ("call", "<is_err>", [err_of], node), True)), "try", ("err?", err_of)))
                     continue
             out.append(p)
         return out
@@ -1052,8 +1114,11 @@ class SymX:
                     else:
                         outs.append((s, ("unit",)))
                     continue
-                outs.extend(self.ev(e["t"], s.cond(("if", v, True))))
-                s_f = s.cond(("if", v, False))
+                pol_ = True
+                while isinstance(v, tuple) and v[0] == "un" and v[1] == "Not":
+                    v, pol_ = v[2], not pol_          # `if !x` tests x with the branches exchanged
+                outs.extend(self.ev(e["t"], s.cond(("if", v, pol_))))
+                s_f = s.cond(("if", v, not pol_))
                 if "e" in e:
                     outs.extend(self.ev(e["e"], s_f))
                 else:
@@ -1204,10 +1269,26 @@ class SymX:
                     elif ap.get("k") == "pstruct" and (ap.get("path") or "").endswith("Some") and ap["fields"]:
                         pat, body = ap["fields"][0]["p"], arm["body"]
             outs = []
-            for s, itv in self.ev(it, st):
+            work = [(s_, v_, []) for s_, v_ in self.ev(it, st)]
+            pending_tail, mark = None, 0
+            while work or pending_tail is not None:
+                if pending_tail is not None:
+                    # the loop just evaluated was the first part of `a.chain(b)`: run the rest over each of its final states
+                    done_, outs = outs[mark:], outs[:mark]
+                    work = [(s_, pending_tail[0], pending_tail[1:]) for s_, _v in done_] + work
+                    pending_tail = None
+                    continue
+                s, itv, tail = work.pop(0)
+                mark = len(outs)
                 if body is None:
                     outs.append((s, ("unit",)))
                     continue
+                if is_call_t(itv) and itv[1] == "std::iter::Iterator::chain" and len(itv[2]) == 2:
+                    # `for x in a.chain(b) { body }` is `for x in a { body } for x in b { body }`
+                    work.insert(0, (s, itv[2][0], [itv[2][1]] + tail))
+                    continue
+                if tail:
+                    pending_tail = tail
                 # a loop over a short literal array / tuple of expressions is its body written out once per element
                 lit = itv
                 while is_call_t(lit) and lit[1].split("::")[-1] in ("into_iter", "iter") and lit[2]:
@@ -1263,7 +1344,12 @@ class SymX:
             return tm
         outs = []
         for s, v in self.ev(e["scrut"], st):
+            lazy = self._match_on_map(e, s, v)
+            if lazy is not None:
+                outs.extend(lazy)
+                continue
             excluded = set()      # variants wholly matched by earlier unguarded arms
+            earlier_nodes = []    # pattern nodes of earlier unguarded arms (for rules that evaluate the arms on concrete values)
             earlier = []          # patterns of earlier *unguarded* arms: reaching a later arm proves these did not match
             earlier_guarded = []  # patterns of earlier guarded arms: a later arm is also reached when one matched and its guard failed
             lit_arms = []         # (literal term) of earlier unguarded literal arms: `match x { 1 => a, _ => b }` is `if x == 1 { a } else { b }`
@@ -1332,7 +1418,7 @@ class SymX:
                     (earlier_guarded if "guard" in arm else earlier).append(pr)
                     continue        # an earlier test of the same value on this path (an inlined helper's match) already excludes this arm
                 if not (known is not None and vs is not None and vs[0] != "*" and vs[1]):       # (a known constructor matched by its own pattern is no test)
-                    s_i = s_i.cond(("match", v, pr, i, arm["pat"], earlier[:], earlier_guarded[:], poss))
+                    s_i = s_i.cond(("match", v, pr, i, arm["pat"], earlier[:], earlier_guarded[:], poss, earlier_nodes[:]))
                 self.bind(arm["pat"], v, s_i)
                 if "guard" in arm:
                     for s_g, g in self.ev(arm["guard"], s_i):
@@ -1340,9 +1426,42 @@ class SymX:
                 else:
                     outs.extend(self.ev(arm["body"], s_i))
                 (earlier_guarded if "guard" in arm else earlier).append(pr)
+                if "guard" not in arm:
+                    earlier_nodes.append(arm["pat"])
                 self._guard(len(outs))
                 if known is not None and vs is not None and vs[0] != "*" and vs[1] and "guard" not in arm:
                     break           # .. and this arm always does: later arms are unreachable
+        return outs
+
+    def _match_on_map(self, e, s, v):
+        """`match x.map(f) { Some(y) => A, None => B }` is `match x { Some(v) => { let y = f(v); A }, None => B }` (two plain arms only)."""
+        if not (is_call_t(v) and v[1] in ("std::option::Option::<T>::map", "std::result::Result::<T, E>::map") and len(v[2]) == 2 and
+                isinstance(v[2][1], tuple) and v[2][1][0] in ("closure", "def")) or len(e["arms"]) != 2 or any("guard" in a for a in e["arms"]):
+            return None
+        yes = no = None
+        for a in e["arms"]:
+            ap = a["pat"]
+            while ap.get("k") in ("pref", "pderef"):
+                ap = ap["p"]
+            if ap.get("k") == "ptuplestruct" and (ap.get("path") or "").split("::")[-1] in ("Some", "Ok") and len(ap["pats"]) == 1 and yes is None:
+                yes = (a, ap)
+            elif ap.get("k") in ("wild",) or (ap.get("k") == "pexpr" and (ap.get("path") or "").split("::")[-1] == "None") or \
+                    (ap.get("k") == "ptuplestruct" and (ap.get("path") or "").split("::")[-1] == "Err" and len(ap["pats"]) == 1 and ap["pats"][0].get("k") == "wild"):
+                no = (a, ap)
+        if yes is None or no is None:
+            return None
+        x = v[2][0]
+        good = (yes[1].get("path") or "").split("::")[-1]
+        pr = show(yes[1])
+        s_t = s.cond(("match", x, pr, True, yes[1]))
+        applied = self.apply_fn(v[2][1], [("proj", x, good + ".0")], s_t, e)
+        if applied is None:
+            return None
+        outs = []
+        for s2, val in applied:
+            self.bind(yes[1]["pats"][0], val, s2)
+            outs.extend(self.ev(yes[0]["body"], s2))
+        outs.extend(self.ev(no[0]["body"], s.cond(("match", x, "!" + pr, False, yes[1]))))
         return outs
 
     def ev_tuple_match(self, e, st):
